@@ -2,6 +2,7 @@
 import os, sys, json, copy, itertools
 import core, genjson, gennb, pyspec, wire
 import c05_merge as M
+import c06_meta as MT
 
 PROP = 'C06'
 
@@ -164,7 +165,34 @@ def gen_items(chk, tier):
     for k in range(150 if quick else 2000):          # few, small cells: every adjacency pattern shows up often
         b, l, x, e = gennb.gen_disjoint_triple(r, rich=False, ncells=r.choice([2, 3, 4]), p_insert=0.4, p_delete=0.35)
         items.append({'task': {'op': 'merge_nb', 'base': b, 'local': l, 'remote': x, 'args': None}, 'expected': e, 'src': 'nb-disjoint-small'})
+    # both sides meet in ONE mapping, under different keys (c06_meta): the notebook metadata (plus disjoint cell changes),
+    # one cell's metadata, one output's metadata -- the dicts that carry a conflict strategy by default -- and generic
+    # objects with a strategy configured on their own path
+    for k in range(160 if quick else 2000):
+        b, l, x, e = MT.gen_nb_metadata_triple(r, k)
+        args = argsets[(k // 4) % len(argsets)] if k % 4 == 2 else None
+        items.append({'task': {'op': 'merge_nb', 'base': b, 'local': l, 'remote': x, 'args': args}, 'expected': e, 'src': 'nb-meta-keys'})
+    for k in range(50 if quick else 600):
+        b, l, x, e = MT.gen_cell_metadata_triple(r, k)
+        items.append({'task': {'op': 'merge_nb', 'base': b, 'local': l, 'remote': x, 'args': None}, 'expected': e, 'src': 'deep-cell-meta-keys'})
+    for k in range(40 if quick else 500):
+        b, l, x, e = MT.gen_output_metadata_triple(r, k)
+        items.append({'task': {'op': 'merge_nb', 'base': b, 'local': l, 'remote': x, 'args': None}, 'expected': e, 'src': 'deep-output-meta-keys'})
+    for _ in range(300 if quick else 3000):
+        b, l, x, e, st = MT.gen_json_strategy_dict(r, gen_disjoint_dict)
+        items.append({'task': {'op': 'merge_json', 'base': b, 'local': l, 'remote': x, 'strategies': st}, 'expected': e, 'src': 'rand-dict-strategy'})
     return items
+
+def judge(it, res):
+    """the property's oracle on one implementation result.  Notebook families built on the cell partition respect the
+    differ's alignment (c05_merge.walk_separated); the deep-* families, where both sides patch the same cell by
+    construction, use the recursive walk of c06_meta instead; everything else is judged unconditionally."""
+    src = str(it.get('src', ''))
+    if src.startswith('deep-'):
+        if isinstance(res, dict) and 'ld' in res and 'rd' in res and not MT.deep_separated(res['ld'], res['rd']):
+            return 'excluded', 'alignment-not-separated-deep'
+        return M.judge_disjoint(res, it['expected'], respect_alignment=False)
+    return M.judge_disjoint(res, it['expected'], respect_alignment=src.startswith('nb-'))
 
 def run(tier, seed):
     chk = core.Check(PROP, tier, seed)
@@ -179,8 +207,8 @@ def run(tier, seed):
         if M.diff_failed(res): diff_fail += 1
         if isinstance(res, dict) and res.get('ld') and res.get('rd'):
             both += 1
-            t = it['task']; nontriv.add(pyspec.canon([t['base'], t['local'], t['remote'], t.get('args')]))
-        sig, detail = M.judge_disjoint(res, it['expected'], respect_alignment=it['src'].startswith('nb-'))
+            t = it['task']; nontriv.add(pyspec.canon([t['base'], t['local'], t['remote'], t.get('args'), t.get('strategies')]))
+        sig, detail = judge(it, res)
         if sig == 'excluded':
             excluded[detail] = excluded.get(detail, 0) + 1
         elif sig:
@@ -196,7 +224,8 @@ def run(tier, seed):
         'rule': 'triples whose two sides change different parts of base, with the merged result known by construction: exhaustive '
                 'owner/action assignments on lists of <=4 (quick) / <=6 distinct items, random disjoint edits of objects, lists, '
                 'multi-line strings (also one level down), generated notebooks from gennb.gen_disjoint_triple under the default and '
-                'the use-* strategies; non-trivial = BOTH sides have a non-empty diff, distinct by canonical JSON of the triple',
+                'the use-* strategies; triples whose sides meet in one mapping under different keys (notebook / cell / output metadata, '
+                'objects with a conflict strategy on their own path; c06_meta); non-trivial = BOTH sides have a non-empty diff, distinct by canonical JSON of the triple',
         'input_distribution': hist, 'traces_validated_against_impl': st['validated'], 'model_impl_mismatches': st['mismatches'],
         'outside_model_hook_reached': st['outside_model'], 'oracle_misses': st['oracle_misses'], 'model_lines': st['lines'],
         'both_sides_changed': both, 'excluded_outside_hypothesis': excluded, 'differ_failed_before_merge': diff_fail, 'exhaustive': False,
@@ -212,7 +241,7 @@ def replay(path):
         print(json.dumps(body['obligations'], indent=1, default=str)[:4000]); return 1
     c = body['case']
     res = M.run_impl([c['task']], shards=1)[0]
-    sig, detail = M.judge_disjoint(res, c['expected'], respect_alignment=str(c.get('src', '')).startswith('nb-'))
+    sig, detail = judge(c, res)
     if sig == 'excluded': sig = None
     print(json.dumps({'signature': sig, 'detail': detail}, indent=1, default=str)[:4000])
     if sig:
